@@ -108,6 +108,43 @@ def mech_const_ctor(site):
     return None
 
 
+LEN_CALL = re.compile(r"::(len|count|capacity)$")
+
+
+def _length_leaves(fn, op, depth=6):
+    """True if the operand is a length (result of len()/count()), a small constant, or a sum of such: bounded by isize::MAX"""
+    if op["k"] == "const":
+        v = op.get("int")
+        return v is not None and 0 <= v <= 4096
+    if depth == 0 or op["pl"]["p"] and not all(isinstance(e, dict) and "f" in e for e in op["pl"]["p"]):
+        return False
+    l = op["pl"]["l"]
+    cdefs = [c for c in fn.calls if c.dest is not None and c.dest["l"] == l and not c.dest["p"]]
+    if cdefs:
+        return all(LEN_CALL.search(short(c.name)) for c in cdefs)
+    defs = [s_ for i_, s_ in fn.stmts() if s_["k"] == "assign" and s_["pl"]["l"] == l and not s_["pl"]["p"]]
+    if len(defs) != 1:
+        return False
+    rv = defs[0]["rv"]
+    if rv["k"] == "use":
+        return _length_leaves(fn, rv["op"], depth - 1)
+    if rv["k"] == "binop" and rv["op"] in ("Add", "AddWithOverflow"):
+        return _length_leaves(fn, rv["l"], depth - 1) and _length_leaves(fn, rv["r"], depth - 1)
+    return False
+
+
+def mech_lengths(site):
+    if site.kind == "cast" and site.stmt is not None:
+        rv = site.stmt["rv"]
+        if rv["from"] == "usize" and rv["to"] in ("i64", "u64", "isize", "i128", "u128") and _length_leaves(site.fn, rv["op"]):
+            return "length cast (a len()/count() result is at most isize::MAX)"
+    if site.kind == "overflow" and site.detail.startswith("Add usize,usize"):
+        ops = site.extra["ops"]
+        if all(_length_leaves(site.fn, o) for o in ops):
+            return "sum of lengths (each at most isize::MAX, so the usize sum cannot overflow)"
+    return None
+
+
 def _dominating_guards(site):
     fn = site.fn
     out = []
@@ -142,6 +179,23 @@ def req_guard_call(site, req):
             if o.kind == "call" and rx.search(short(o.call.name)):
                 return True
     return False
+
+
+def _guard_identity(site, req):
+    """the switch block of the (innermost) guard that satisfies a guard_call requirement"""
+    if "guard_call" not in req:
+        return None
+    rx = re.compile(req["guard_call"])
+    want = req.get("edge", "some").lower()
+    best = None
+    for g in _dominating_guards(site):
+        if g["edge"] != want:
+            continue
+        for o in g["origins"]:
+            if o.kind == "call" and rx.search(short(o.call.name)):
+                if best is None or site.fn.dominates(best, g["sw"]):
+                    best = g["sw"]
+    return best
 
 
 def req_guard_cmp(site, req):
@@ -249,6 +303,7 @@ def run_inventory(R, rid, root_name, desc, restrict=None):
     for e in tab["discharged"]:
         entries[e["key"]].append(e)
     used = Counter()
+    per_guard_sites = {}
     all_sites = []
     for k in sorted(reach):
         f = P.fns[k]
@@ -263,15 +318,28 @@ def run_inventory(R, rid, root_name, desc, restrict=None):
     for key in sorted(by_key):
         ss = by_key[key]
         for idx, s in enumerate(sorted(ss, key=lambda s: (s.file, s.line))):
-            how = mech_const_divisor(s) or mech_counter(s) or mech_const_ctor(s)
+            how = mech_const_divisor(s) or mech_counter(s) or mech_const_ctor(s) or mech_lengths(s)
             if how:
                 R.ok(rid, key, "mechanical: " + how, s.loc(), nontrivial=False)
                 continue
             done = False
             for e in entries.get(key, []):
-                if used[id(e)] >= e.get("count", 1):
-                    continue
-                if "requires" in e and not check_requires(s, e["requires"]):
+                if "requires" in e:
+                    # mechanically re-proved per site: any number of sites may use the row, but a guard that licenses one
+                    # use (`per_guard`) is consumed by the first site it dominates
+                    if not check_requires(s, e["requires"]):
+                        continue
+                    pg = e["requires"].get("per_guard")
+                    if pg is not None:
+                        gsw = _guard_identity(s, e["requires"])
+                        gk = (id(e), gsw)
+                        prev = per_guard_sites.setdefault(gk, [])
+                        # a second use on the same path from the guard (not on a mutually exclusive arm) is not licensed
+                        clash = [b for b in prev if s.bb in s.fn.reachable_from(b, avoid={gsw}) or b in s.fn.reachable_from(s.bb, avoid={gsw})]
+                        if len(clash) >= pg:
+                            continue
+                        prev.append(s.bb)
+                elif used[id(e)] >= e.get("count", 1):
                     continue
                 used[id(e)] += 1
                 kind = "mechanical+table" if "requires" in e else "table"
